@@ -23,6 +23,18 @@ add("C05", E1,
     "Runtime monitor (packet level): valid UPDATE templates (legacy + MP families, eBGP/iBGP/confed, 2-/4-octet AS, ADD-PATH) are corrupted by a recording RFC 7606 fault engine (flags, length, value, duplication, omission, unknown well-known, truncation, iBGP-only attributes on eBGP, MP faults; up to 4 faults per UPDATE) and pushed through the real try_parse + validate_message; an oracle computed from the fault record and an independent TLV walk decides never-installs / treat-as-withdraw / discard / withdrawals-survive / reset-only-if-must / ebgp-filter / no-panic. Debug+release; Miri slice in thorough.",
     "Trusted: the fault classification (Benign/Discardable/MustWithdraw) written from the statement + RFC 7606; where RFC 7606 leaves a choice every permitted outcome is accepted (listed in the evidence assumptions). The end-to-end RIB half is not part of this check yet.",
     "runtime monitoring: fault-injection workload + reference classifier oracle over decoder output")
+add("C14", E1,
+    "Runtime monitor: random policy programs over every supported condition and action (nested/overlapping prefix sets, as-path single-match patterns, community/ext/large sets with ANY/ALL/INVERT, lengths, next hop, RPKI, local-pref, MED, origin, route type, community count, afi-safi) evaluated through the real apply_import/apply_export on routes partly obtained by decoding generated UPDATE bytes (every AS_PATH segment type, empty segments, >255 hops, every attribute kind) and compared with a reference interpreter written from the statement; CRUD histories (add/merge/replace/delete on sets, statements, policies, assignments) check that referenced entities cannot be deleted or silently changed. Debug+release; panics are violations.",
+    "Trusted: the reference interpreter; cases where the statement is silent (regex patterns, ALL on community sets where readings differ, later conditions seeing earlier modifications) are counted as unjudged, not judged.",
+    "runtime monitoring: reference-interpreter oracle over generated programs x routes + CRUD history invariants")
+add("C15", E1,
+    "Runtime monitor: random session histories (3 peers reusing their address across sessions, 5 prefixes x 2 families, path ids 0-2, filtered/unfiltered announcements, limits none/0/1/2/3, GR/LLGR timers, EOR, soft reset) are turned into exactly the Table calls the daemon makes; after every call the RIB is recounted through destinations(Global, .., true) and compared with state(), peer_stats() and the per-session limit counter; underflow (debug panic or counter > 2^63) is a violation. Failing histories are delta-debugged.",
+    "Trusted: the recount definitions pinned by the repo's own addpath_peer_stats tests (received = distinct prefixes with a path from the peer, accepted = unfiltered paths) and the call protocol transcribed from table_manager.rs / event/mod.rs.",
+    "runtime monitoring: conservation / recount invariant checked after every step of generated histories")
+add("C19", E1,
+    "Runtime monitor (packet level): generated BMP (PeerUp/PeerDown/RouteMonitoring for 19 families, add-path, L/O flags, peer types, 1..113000 NLRI) and MRT (BGP4MP, TABLE_DUMP_V2 peer index + RIB records) events are encoded by the real BmpCodec / MrtCodec / encode_table_dump and read back by independent structural readers written from RFC 7854/8671/9069 and RFC 6396/8050 (lengths, V flag / AFI vs addresses, exactly one PDU per record, peer indexes, entry counts); the embedded PDUs are parsed with the repo's own BGP parser and must give back the monitored prefixes, attributes and next hop. ASan pass in thorough. The daemon-side converters are not part of this check yet.",
+    "Trusted: the independent readers; an event is only judged if a plain BGP session codec of the repo round-trips it (otherwise it is C04's subject and counted unjudged).",
+    "runtime monitoring: independent structural decoder + round-trip oracle over generated records (ASan in thorough)")
 add("C18", E2,
     "Runtime monitor on real threads: writer sessions (insert/remove/peer drop+re-up), a controller toggling import policy + soft_reset_in, and subscribers that subscribe/unsubscribe at random points run against the real TableManager with delay injection at the hook points between critical sections; after quiescence each subscription's folded event stream must equal iter_reach / iter_reach_post. Thorough adds ThreadSanitizer and Miri (different schedules per -Zmiri-seed). Schedules are sampled, not enumerated.",
     "Trusted: the fold (insert on reach, remove on withdraw, PeerDown clears the peer) and the ground truth read through the table's own iterators; GR stale retention not in scope.",
